@@ -236,6 +236,14 @@ func cmdWorker(args []string) int {
 	sigs := map[uint64]bool{}
 	seenViol := map[string]bool{}
 	abandoned := false
+	var knownOpen []KnownFinding
+	if ks, err := loadKnown(); err == nil {
+		for _, k := range ks {
+			if k.Status == "open" {
+				knownOpen = append(knownOpen, k)
+			}
+		}
+	}
 	absorb := func(entry string, r *core.Result) {
 		so.Evaluations++
 		so.PerEntry[entry]++
@@ -289,13 +297,25 @@ func cmdWorker(args []string) int {
 			return false, nil
 		}
 		maxExec, maxTime := 3000, 40*time.Second
+		if core.Quick() {
+			maxTime = 20 * time.Second
+		}
 		if isRace {
 			maxExec, maxTime = 120, 60*time.Second
 		}
 		var best []uint64
 		var execs int
 		var final *core.Result
-		if r.Abandoned {
+		isKnown := false
+		for _, k := range knownOpen {
+			if k.Property == orig.Property && k.Signature == orig.Signature && (k.Oracle == "" || k.Oracle == orig.Oracle) {
+				isKnown = true
+			}
+		}
+		if isKnown {
+			// a listed finding: recorded as found (the driver prints KNOWN-FINDING), not minimised again
+			best, final = tape, r
+		} else if r.Abandoned {
 			// the run left code under test spinning: every re-execution costs the full time-out and
 			// another spinning goroutine, so the tape is reported unshrunk
 			best, final = tape, r
